@@ -21,7 +21,7 @@ def main():
     ids = [a for a in sys.argv[1:] if not a.startswith("--")]
     envp = ""
     if "--worktree" in sys.argv:
-        R = "/tmp/seedrun_wt"
+        R = os.environ.get("SEEDRUN_WT", "/tmp/seedrun_wt")
         sh("git -C /repo worktree remove --force %s" % R)
         rc, out = sh("git -C /repo worktree add --detach %s HEAD" % R)
         if rc != 0:
